@@ -182,3 +182,19 @@ PROPS['C10'] = dict(
     technique='property-based testing (rapidcheck): round trip + reference predicate + binary128 geometric oracle',
     assumptions=['edge boundary follows the origin cell\'s counter-clockwise boundary order'],
 )
+
+PROPS['C11'] = dict(
+    src='props/C11.cpp', variants=['fast', 'asan'], level='exploration',
+    rule=('cells from the stress mixture with all geometric neighbours and distance-2 cells: slots, corner geometry, three-cell sharing, two-vertex adjacency criterion, all 8 vertex numbers named '
+          'through the cell and each neighbour (canonical vs non-canonical), out-of-range vertex numbers; 64-bit candidates (mode, owner damage, bit flips, raw); complete strata: all cells of '
+          'res 0..3 (4), k<=2 disks of all pentagons at all res, global 2N-4 / three-times identity for res 0..4 (6). '
+          'non-trivial = the cell or a neighbour is a pentagon or has distortion vertices, a mode-4 candidate over a valid owner, or a global identity; distinct by (kind, index)'),
+    quick=dict(cases={'fast': 100_000, 'asan': 8_000}, enum={'fast': 8}),
+    thorough=dict(cases={'fast': 3_000_000, 'asan': 150_000}, enum={'fast': 16}),
+    strata=dict(quick=['all cells res 0..3', 'k=2 disks of 12 pentagons x 16 res', '2N-4 identity res 0..4'], thorough=['all cells res 0..4', '2N-4 identity res 0..6']),
+    level_text=('topological corners are identified from geometry alone (a boundary vertex lying on two neighbours is a corner, on one a distortion vertex); slot i must sit on corner i (1e-12 rad), the three cells at a corner must produce '
+                'one identical index, neighbours share exactly two indexes, every non-produced (cell, vertexNum) naming must be rejected by isValidVertex, and whole resolutions must have exactly 2N-4 indexes each produced three times'),
+    level_note='trusted: geometric neighbour probes / shared-run matching; "canonical" for raw 64-bit candidates is defined as "produced by cellToVertexes of the owner", whose production is validated geometrically',
+    technique='property-based testing (rapidcheck): geometric corner oracle + sharing invariants + global counting identity',
+    assumptions=['boundary vertex 0 is topological corner 0 (documented boundary order)'],
+)
